@@ -99,6 +99,7 @@ CHECKS = {
     },
     "C14": {
         "needs_cli": True,
+        "needs_py": True,
         "level": "fault_enumeration",
         "technique": "exhaustive crash-point and fault-position enumeration over the recorded destination operation log of the real writer",
         "rule": "for each history (file type x chromosomes x pass x zooms x compression [x slots, buffering]; small and > 8 KiB per chromosome): (a) every prefix of the recorded write/seek/flush log is materialised and opened with the typed and generic readers - each accepted image must serve the complete chromosome table, records and zoom levels or refuse the query; (b) for every operation index and each fault mode (fail once / fail from then on / short write) the write call must not return Ok(()) (short write: Ok only with byte-identical output); (c) the destination after each refused input must be rejected or fully served. non-trivial = every history",
